@@ -1,8 +1,105 @@
 import Driver.Util
+import Driver.TxFmt
+import BtcVerif.Model.Merkle
+import BtcVerif.Spec.Merkle
 
 namespace Driver.C15
-open BtcVerif Driver
+open BtcVerif Driver Driver.TxFmt
 
-def handle (_op : String) (_args : List String) : Option String := none
+def parseTxs? (s : String) : Option (List Tx) := (splitList s '/').mapM parseTx?
+
+def renderBytes (r : Res Bytes) : String := Res.render (r.map toHex)
+def renderNat (r : Res Nat) : String := Res.render (r.map toString)
+def renderOpt (o : Option Bytes) : String :=
+  match o with
+  | some b => toHex b
+  | none => "none"
+
+def handle (op : String) (args : List String) : Option String :=
+  match op, args with
+  -- CBlock.build_merkle_tree_from_txids(hashes)[-1]
+  | "c15.root", [hs] => some <| match parseHexList? hs with
+      | some hs => renderBytes ((Model.Merkle.buildTreeFromTxids hs).bind Model.Merkle.lastOf)
+      | none => badArgs
+  -- the whole tree: node count and double-SHA256 of the concatenated nodes
+  | "c15.tree", [hs] => some <| match parseHexList? hs with
+      | some hs => Res.render ((Model.Merkle.buildTreeFromTxids hs).map
+          (fun t => s!"{t.length}:{toHex (Crypto.hash256 t.flatten)}"))
+      | none => badArgs
+  | "c15.spec.root", [hs] => some <| match parseHexList? hs with
+      | some hs => renderOpt (Spec.Merkle.root hs)
+      | none => badArgs
+  | "c15.merkle", [txs] => some <| match parseTxs? txs with
+      | some txs => renderBytes (Model.Merkle.calcMerkleRoot txs)
+      | none => badArgs
+  | "c15.spec.merkle", [txs] => some <| match parseTxs? txs with
+      | some txs => renderOpt (Spec.Merkle.merkleRoot txs)
+      | none => badArgs
+  | "c15.wmerkle", [txs] => some <| match parseTxs? txs with
+      | some txs => renderBytes (Model.Merkle.calcWitnessMerkleRoot txs)
+      | none => badArgs
+  | "c15.spec.wmerkle", [txs] => some <| match parseTxs? txs with
+      | some txs => renderOpt (Spec.Merkle.witnessRoot txs)
+      | none => badArgs
+  | "c15.txid", [tx] => some <| match parseTx? tx with
+      | some t => renderBytes (Model.Merkle.getTxid t)
+      | none => badArgs
+  | "c15.wtxid", [tx] => some <| match parseTx? tx with
+      | some t => renderBytes (Model.Merkle.getHash t)
+      | none => badArgs
+  -- CBlock(nVersion, prev, declared root, nTime, nBits, nNonce, vtx): resulting hashMerkleRoot
+  | "c15.ctor", [blk] => some <| match parseBlock? blk with
+      | some b => Res.render ((Model.Merkle.blockCtor b.hdr b.vtx).map
+          (fun r => "ok:" ++ toHex r.hdr.hashMerkleRoot))
+      | none => badArgs
+  | "c15.spec.ctor", [blk] => some <| match parseBlock? blk with
+      | some b => (match Spec.Merkle.ctorSpec b.hdr.hashMerkleRoot b.vtx with
+          | some (.filled r) => "ok:" ++ toHex r
+          | some .kept => "ok:" ++ toHex b.hdr.hashMerkleRoot
+          | some .refused => "err:validation"
+          | none => "ok:" ++ toHex b.hdr.hashMerkleRoot)
+      | none => badArgs
+  | "c15.weight", [tx] => some <| match parseTx? tx with
+      | some t => renderNat (Model.Merkle.calcWeight t)
+      | none => badArgs
+  | "c15.spec.weight", [tx] => some <| match parseTx? tx with
+      | some t => toString (Spec.Merkle.txWeight t)
+      | none => badArgs
+  | "c15.bweight", [blk] => some <| match parseBlock? blk with
+      | some b => renderNat (Model.Merkle.getWeight b)
+      | none => badArgs
+  | "c15.spec.bweight", [blk] => some <| match parseBlock? blk with
+      | some b => toString (Spec.Merkle.blockWeight b)
+      | none => badArgs
+  -- every size observable of a block at once:
+  --   GetWeight ; len(serialize(include_witness=False)) ; len(serialize()) ; calc_weight of each tx
+  | "c15.sizes", [blk] => some <| match parseBlock? blk with
+      | some b =>
+          let len (r : Res Bytes) : String := Res.render (r.map (fun x => toString x.length))
+          ";".intercalate [renderNat (Model.Merkle.getWeight b), len (Model.Wire.serBlock b false),
+            len (Model.Wire.serBlock b true),
+            ",".intercalate (b.vtx.map (fun t => renderNat (Model.Merkle.calcWeight t)))]
+      | none => badArgs
+  | "c15.spec.sizes", [blk] => some <| match parseBlock? blk with
+      | some b =>
+          ";".intercalate [toString (Spec.Merkle.blockWeight b), toString (Spec.Merkle.blockStripped b).length,
+            toString (Spec.Wire.block b).length,
+            ",".intercalate (b.vtx.map (fun t => toString (Spec.Merkle.txWeight t)))]
+      | none => badArgs
+  -- a block built by the constructor from the CURRENT field values of its transactions, and what is
+  -- then observed on it: root kept/filled ; calc_merkle_root ; calc_witness_merkle_root ; GetWeight ;
+  -- calc_weight of each transaction
+  | "c15.blockobs", [blk] => some <| match parseBlock? blk with
+      | some b =>
+          (match Model.Merkle.blockCtor b.hdr b.vtx with
+           | .error e => "err:" ++ e.family
+           | .ok nb =>
+             ";".intercalate ["ok:" ++ toHex nb.hdr.hashMerkleRoot,
+               renderBytes (Model.Merkle.calcMerkleRoot nb.vtx),
+               renderBytes (Model.Merkle.calcWitnessMerkleRoot nb.vtx),
+               renderNat (Model.Merkle.getWeight nb),
+               ",".intercalate (nb.vtx.map (fun t => renderNat (Model.Merkle.calcWeight t)))])
+      | none => badArgs
+  | _, _ => none
 
 end Driver.C15
